@@ -4,7 +4,7 @@
 WT="$(readlink -f "$1")"
 OUT="$(mktemp -d /tmp/seedbase.XXXXXX)"
 cd "$WT" || exit 2
-PYTHONPATH="$WT/src" /venv/bin/python -m pytest -ra -q -p no:cacheprovider --timeout=900 --continue-on-collection-errors --junitxml="$OUT/junit.xml" >"$OUT/log" 2>&1
+mkdir -p "$OUT/home"; HOME="$OUT/home" PYTHONPATH="$WT/src" /venv/bin/python -m pytest -ra -q -p no:cacheprovider --timeout=900 --continue-on-collection-errors --junitxml="$OUT/junit.xml" >"$OUT/log" 2>&1
 /venv/bin/python - "$OUT/junit.xml" <<'P'
 import json, sys, xml.etree.ElementTree as ET
 base = set(json.load(open('/root/.vp/BASELINE.json'))['stable_pass'])
